@@ -5,7 +5,7 @@ From Coq Require Import ZArith List String Ascii Bool Permutation.
 From Gen Require Import Elements TokenTables SmartsTables.
 From Model Require Import PyBase Graph PeriodicTable Tokenize Smarts Query SmartsFull.
 From Model Require Parser.
-From Proofs Require Import QueryProofs TokenizeProofs SmartsProofs SmartsRoundtrip SmartsParser SmartsFullProofs SmartsDenote SmartsDenoteText SmartsTree SmartsTreeText SmartsStereo.
+From Proofs Require Import QueryProofs TokenizeProofs SmartsProofs SmartsRoundtrip SmartsParser SmartsFullProofs SmartsDenote SmartsDenoteText SmartsTree SmartsTreeText SmartsStereo SmartsRing SmartsRingText.
 Import ListNotations.
 Open Scope Z_scope.
 
@@ -485,3 +485,59 @@ Theorem C08_last_mark_flag_spelling_dependent :
   repaired_flag 1 5 (1, false) (5, true) = repaired_flag 1 5 (2, true) (5, true).
 Proof. exact last_mark_flag_spelling_dependent. Qed.
 Print Assumptions C08_last_mark_flag_spelling_dependent.
+
+(* ---------------------------------------------------------------------------------------------------------------- *)
+(* denotation of patterns with RING CLOSURES.  The meaning (SmartsRing.den_root) threads, in reading order, the table of open
+   closures (digit -> atom that opened it, bond token written there): an item  bond? digit  at atom a opens the digit, or closes it
+   with a bond between a and the opening atom whose value is the bond written at either end (both written: they must be equal,
+   otherwise the text is rejected; none: single); every atom is bonded to its parent in the tree.  Token level, for ANY tree: *)
+Theorem C08_ring_denotation : forall t qs bonds,
+  rok_tree t -> den_root t = Some ([], bonds) ->
+  Forall2 (fun p q => build_atom p = Ok q) (atoms_rtree t) qs ->
+  NoDup (explicit_maps (atoms_rtree t)) ->
+  distinct_pairs [] bonds -> Forall payload_valid bonds ->
+  full_of_tokens (tok_rtree t) (atoms_rtree t) =
+  Ok (map (fun pq => atom_result (fst pq) (snd pq)) (combine (atoms_rtree t) qs), map to_sbond bonds).
+Proof. exact ring_denotation. Qed.
+Print Assumptions C08_ring_denotation.
+
+(* one closure item, for ANY parser state of the invariant: it opens the digit or closes it with the resolved bond *)
+Theorem C08_ring_item : forall k bs st last cy s b d, TC k bs st last cy s -> PI s -> cyc_wf k cy -> SmartsRing.okb b ->
+  match zget (cyc_view cy) d with
+  | None => exists s' cy', Parser.step false (Parser.set_prev s b) (6, PInt d) = Ok s' /\ TC k bs st last cy' s' /\ PI s' /\
+                           cyc_view cy' = (cyc_view cy ++ [(d, (last, b))])%list /\ cyc_wf k cy'
+  | Some (a, ob) =>
+      match resolve ob b with
+      | Some v => exists s', Parser.step false (Parser.set_prev s b) (6, PInt d) = Ok s' /\
+                             TC k (bs ++ [(last, a, v)]) st last (Parser.zdel cy d) s' /\ PI s' /\ cyc_wf k (Parser.zdel cy d)
+      | None => Parser.step false (Parser.set_prev s b) (6, PInt d) = Err IncorrectSmiles
+      end
+  end.
+Proof. exact ring_item. Qed.
+Print Assumptions C08_ring_item.
+
+(* Text level: for EVERY text of the grammar
+     tree := atom ( bond digit )* ( "(" bond tree ")" )* ( bond tree )?       digit := 1 .. 9   (the %nn form is not covered)
+   smarts() builds the atoms written, in order, the bonds of the tree and the ring bonds of den_root - provided den_root closes
+   every digit, no bond joins an atom to itself and no two bonds join the same atoms (otherwise smarts() rejects the text) *)
+Theorem C08_ring_text_denotation : forall t qs bonds,
+  xok_tree t -> den_root (to_rtree t) = Some ([], bonds) ->
+  Forall2 (fun p q => build_atom p = Ok q) (atoms_rtree (to_rtree t)) qs ->
+  NoDup (explicit_maps (atoms_rtree (to_rtree t))) ->
+  distinct_pairs [] bonds -> Forall payload_valid bonds ->
+  smarts_full (string_of_list_ascii (text_xtree t)) =
+  Ok (map (fun pq => atom_result (fst pq) (snd pq)) (combine (atoms_rtree (to_rtree t)) qs), map to_sbond bonds).
+Proof. exact ring_text_denotation. Qed.
+Print Assumptions C08_ring_text_denotation.
+
+Theorem C08_ring_text_example :
+  xok_tree ex_xtree /\
+  string_of_list_ascii (text_xtree ex_xtree) = "[C;D3]1(=O)c-,=N-;@1"%string /\
+  den_root (to_rtree ex_xtree) = Some ([], [(1, 0, PInt 2); (2, 0, PInt 1); (3, 2, PZs [1; 2]); (3, 0, PQB [1] true)]) /\
+  distinct_pairs [] [(1, 0, PInt 2); (2, 0, PInt 1); (3, 2, PZs [1; 2]); (3, 0, PQB [1] true)] /\
+  smarts_full "[C;D3]1(=O)c-,=N-;@1" =
+  Ok ([(QElem 6 None (mkQX 0 false [3] [] [] [] [] false), None); (QElem 8 None (mkQX 0 false [] [] [] [] [] false), None);
+       (QElem 6 None (mkQX 0 false [] [] [] [] [] false), None); (QElem 7 None (mkQX 0 false [] [] [] [] [] false), None)],
+      [mkSB 1 0 (mkQB [2] None) None; mkSB 2 0 (mkQB [1] None) None; mkSB 3 2 (mkQB [1; 2] None) None; mkSB 3 0 (mkQB [1] (Some true)) None]).
+Proof. exact ring_text_example. Qed.
+Print Assumptions C08_ring_text_example.
